@@ -87,7 +87,8 @@ def cmpDelta (i : Nat) (m : Delta) (x : ImplDelta) : Option String :=
     some s!"row {i}: pre status model=({ratToString m.pre.shares},{ratToString m.pre.all},{showOpt m.pre.acb}) impl=({ratToString x.pre.shares},{ratToString x.pre.all},{showOpt x.pre.acb})"
   else if !statusClose m.post x.post then
     some s!"row {i}: post status model=({ratToString m.post.shares},{ratToString m.post.all},{showOpt m.post.acb}) impl=({ratToString x.post.shares},{ratToString x.post.all},{showOpt x.post.acb})"
-  else if !closeOpt m.gain x.gain then some s!"row {i}: gain model={showOpt m.gain} impl={showOpt x.gain}"
+  else if !closeOptAt (rabs (m.pre.acb.getD 0) + rabs (match m.sfl with | some s => s.loss | none => 0)) m.gain x.gain then
+    some s!"row {i}: gain model={showOpt m.gain} impl={showOpt x.gain}"
   else
     match m.sfl, x.sfl with
     | none, none => none
